@@ -218,7 +218,22 @@ func vProg_calls(env *Zlisp) []Sexp {
 	tr := func(x Sexp) Sexp { return vL(s("t"), x) }
 	p, q, r := vSmallInt("p"), vSmallInt("q"), vSmallInt("r")
 	var f Sexp
-	switch vChoice("shape", 10) {
+	switch vChoice("shape", 15) {
+	case 10: // map over a list: the function is called on the elements first to last
+		f = vL(s("begin"), vL(s("defn"), s("f"), vA(e, s("u")), tr(vL(s("*"), s("u"), vI(2)))),
+			vL(s("map"), s("f"), vL(s("list"), p, q, r)))
+	case 11: // map where the function fails on one element: the first failing element's error stops it
+		f = vL(s("begin"), vL(s("defn"), s("f"), vA(e, s("u")), vL(s("cond"), vL(s("<"), s("u"), vI(0)), vL(s("nosuchfn")), tr(s("u")))),
+			vL(s("map"), s("f"), vL(s("list"), p, q, r)))
+	case 12: // apply with a list of arguments
+		f = vL(s("begin"), vL(s("defn"), s("f"), vA(e, s("u"), s("v")), vL(s("-"), s("u"), s("v"))),
+			vL(s("apply"), s("f"), vL(s("list"), tr(p), tr(q))))
+	case 13: // map over an array with a function that fails on one element
+		f = vL(s("begin"), vL(s("defn"), s("f"), vA(e, s("u")), vL(s("cond"), vL(s("<"), s("u"), vI(0)), vL(s("nosuchfn")), tr(s("u")))),
+			vL(s("map"), s("f"), vA(e, p, q, r)))
+	case 14: // nested maps: inner over a list, outer over an array
+		f = vL(s("begin"), vL(s("defn"), s("f"), vA(e, s("u")), tr(s("u"))),
+			vL(s("map"), vL(s("fn"), vA(e, s("w")), vL(s("map"), s("f"), vL(s("list"), s("w"), vL(s("+"), s("w"), vI(1))))), vA(e, p, q)))
 	case 0: // argument order
 		f = vL(s("begin"), vL(s("defn"), s("f"), vA(e, s("u"), s("v"), s("w")), vL(s("-"), vL(s("-"), s("u"), s("v")), s("w"))),
 			vL(s("f"), tr(p), tr(q), tr(r)))
